@@ -31,6 +31,12 @@ func writeManifest() {
 	claimed := map[string]bool{}
 	for _, s := range enabledSpecs() {
 		if s.Secondary {
+			e := engines[s.Engine]
+			if e == nil {
+				e = map[string]interface{}{"name": s.Engine, "path": "/verif/sim/" + s.Engine, "serves_properties": []string{}, "kind_free_text": s.EngineText + " (additional engine, run by the same check command)"}
+				engines[s.Engine] = e
+			}
+			e["serves_properties"] = append(e["serves_properties"].([]string), s.Prop)
 			continue
 		}
 		claimed[s.Prop] = true
@@ -70,7 +76,7 @@ func writeManifest() {
 	engList := []map[string]interface{}{}
 	seen := map[string]bool{}
 	for _, s := range enabledSpecs() {
-		if !seen[s.Engine] {
+		if !seen[s.Engine] && engines[s.Engine] != nil {
 			seen[s.Engine] = true
 			engList = append(engList, engines[s.Engine])
 		}
